@@ -113,6 +113,10 @@ func condText(toks string) (string, bool) {
 	return strings.Join(parts, " "), true
 }
 
+// timeBase is subtracted from every time literal that is printed: 0 normally; in `rel` cases (spans placed
+// relative to the wall clock) it is the absolute time of the case's origin, so no wall-clock time is printed.
+var timeBase int64
+
 // treeOf prints a parsed InfluxQL condition as a prefix tree over model atoms.
 func treeOf(e influxql.Expr) []string {
 	initAtoms()
@@ -140,11 +144,11 @@ func treeOf(e influxql.Expr) []string {
 				case *influxql.StringLiteral:
 					if r.IsTimeLiteral() {
 						if tl, err := r.ToTimeLiteral(time.UTC); err == nil {
-							return []string{fmt.Sprintf("T%s%d", op, tl.Val.UnixNano())}
+							return []string{fmt.Sprintf("T%s%d", op, tl.Val.UnixNano()-timeBase)}
 						}
 					}
 				case *influxql.TimeLiteral:
-					return []string{fmt.Sprintf("T%s%d", op, r.Val.UnixNano())}
+					return []string{fmt.Sprintf("T%s%d", op, r.Val.UnixNano()-timeBase)}
 				}
 			}
 		}
@@ -609,6 +613,13 @@ func execSched(t []string) string {
 	if !ok {
 		return "badop"
 	}
+	// rel != 0: the case's time origin is `rel` ns before the wall clock's now (start/stop/ticks are relative)
+	var base int64
+	if rel := geti("rel"); rel != 0 {
+		base = time.Now().UnixNano() - rel
+	}
+	timeBase = base
+	defer func() { timeBase = 0 }()
 	tm, fc := backbone()
 	taskNo++
 	id := fmt.Sprintf("c16t%d", taskNo)
@@ -632,12 +643,12 @@ func execSched(t []string) string {
 			inj = append(inj, x)
 			return x
 		})
-		stop := time.Unix(0, c.stop)
+		stop := time.Unix(0, base+c.stop)
 		if c.stopZero {
 			stop = time.Time{}
 		}
 		hist := func() (string, string, string) {
-			bq, err := et.BatchQueries(time.Unix(0, c.start), stop)
+			bq, err := et.BatchQueries(time.Unix(0, base+c.start), stop)
 			if err != nil {
 				return errKind(err), "-", "-"
 			}
@@ -670,7 +681,7 @@ func execSched(t []string) string {
 		for _, x := range inj {
 			for _, tk := range c.ticks {
 				select {
-				case x.ch <- time.Unix(0, tk):
+				case x.ch <- time.Unix(0, base+tk):
 					want++
 				case <-time.After(3 * time.Second):
 				}
